@@ -15,6 +15,7 @@ n-fold return, offset 0 = identity, refinement laws) at 1e-9; bitwise equality a
 RandomState.  Statements about random draws are per-draw certificates.
 """
 import cmath
+import itertools
 import math
 import warnings
 
@@ -277,6 +278,26 @@ def sec_orthonormal(ctx, nd):
                     except StopIteration:
                         pass
             case = {"gen": "OrthonormalVectors", "d": d, "seed": seed}
+            # the same generator drawn with a mixed history (next, slices, for-loop: every `iter()` call included)
+            g3 = vg.OrthonormalVectors(d, rng=np.random.RandomState(seed))
+            mixed = []
+            try:
+                mixed.append(np.array(next(g3)))
+                mixed += [np.array(x) for x in itertools.islice(g3, 2)]
+                mixed += [np.array(x) for x in itertools.islice(iter(g3), 1)]
+                for x in g3:
+                    mixed.append(np.array(x))
+                    if len(mixed) > d + 3:
+                        break
+            except StopIteration:
+                pass
+            ctx.count(f"ortho {d} {seed} mixed", nontrivial=d >= 2, branch="orthonormal-mixed-history")
+            if len(mixed) != len(vs) or any(not np.array_equal(a, b) for a, b in zip(mixed, vs)):
+                ctx.fail(dict(case, history="next, islice(2), islice(iter(g),1), for-loop"),
+                         f"{len(mixed)} vectors; equal to the next()-only sequence: "
+                         f"{[bool(np.array_equal(a, b)) for a, b in zip(mixed, vs)][:8]}",
+                         f"the same {len(vs)} vectors whatever way they are drawn (orthonormal to all earlier ones, at most d)",
+                         where="orthonormal-mixed-history")
             for t in range(len(vs)):
                 ctx.count(f"ortho {d} {seed} {t}", nontrivial=d >= 2, branch="orthonormal-vector")
             ctx.count(f"ortho {d} {seed} stop", nontrivial=d >= 2, branch="orthonormal-stop")
